@@ -525,7 +525,12 @@ def gen_pair(rng, L, tab, malformed=False):
             return s, t
 
 
-def gen_pair1(rng, L, tab, malformed=False):
+def gen_pair1(rng, L, tab, malformed=False, _top=True):
+    if _top and rng.random() < 0.08:
+        # two projections compared directly (WildCardType.is_subtype): same or different use-site variance,
+        # bounds related like any other pair
+        a, b = gen_pair1(rng, L, tab, malformed, _top=False)
+        return ("W", rng.choice([1, 2]), a), ("W", rng.choice([1, 2]), b)
     scope = []
     if rng.random() < 0.35:
         # type variables of some class / function in scope
